@@ -72,6 +72,7 @@ fn main() {
             rep.rule = "stateless deviation-bounded enumeration: hold/release placed at every step (<=2 cycles, from the Sim handle by name or regex, or from host code), manual delivery of any held message or deliver_all as deviations, numbered UDP datagrams A<->B and A->C every step with a fixed 2-tick latency; receive logs (id, source, step) compared with a step-granular reference, Sim::links compared with the reference in-flight set".into();
             run_dfs(&mut rep, "hold-release-3hosts", tier.pick(2, 3), wall, move |ch| flow::c08_scenario(ch, thorough));
             run_dfs(&mut rep, "tcp-segments-and-resets-under-hold", 0, wall, move |ch| c08tcp::scenario(ch, thorough));
+            run_dfs(&mut rep, "held-handshakes-up-to-capacity", 0, wall, move |ch| c08tcp::held_syns_scenario(ch, thorough));
             rep.finish();
         }
         "C03" => {
@@ -255,6 +256,8 @@ fn replay(path: &str) {
         "C08" => {
             if v["scenario"].as_str().map(|s| s.starts_with("c08-tcp")).unwrap_or(false) {
                 c08tcp::scenario(&mut ch, thorough)
+            } else if v["scenario"].as_str().map(|s| s.starts_with("c08-held-syns")).unwrap_or(false) {
+                c08tcp::held_syns_scenario(&mut ch, thorough)
             } else {
                 flow::c08_scenario(&mut ch, thorough)
             }
